@@ -12,8 +12,6 @@ require (
 	cloud.google.com/go/longrunning v1.2.0 // indirect
 	github.com/Masterminds/semver/v3 v3.5.0 // indirect
 	github.com/alessio/shellescape v1.4.2 // indirect
-	github.com/bazelbuild/remote-apis v0.0.0-20260331222004-becdd8f9ff81 // indirect
-	github.com/bazelbuild/remote-apis-sdks v0.0.0-20260610142741-7ffd493e6686 // indirect
 	github.com/beorn7/perks v1.0.1 // indirect
 	github.com/chzyer/readline v1.5.1 // indirect
 	github.com/coreos/go-semver v0.3.1 // indirect
@@ -37,6 +35,7 @@ require (
 	github.com/peterebden/go-cli-init/v5 v5.2.1 // indirect
 	github.com/peterebden/go-deferred-regex v1.1.0 // indirect
 	github.com/peterebden/tools v0.0.0-20190805132753-b2a0db951d2a // indirect
+	github.com/please-build/buildtools v0.0.0-20240111140234-77ffe55926d9 // indirect
 	github.com/please-build/gcfg v1.7.0 // indirect
 	github.com/prometheus/client_golang v1.23.2 // indirect
 	github.com/prometheus/client_model v0.6.2 // indirect
@@ -60,7 +59,6 @@ require (
 	google.golang.org/genproto/googleapis/bytestream v0.0.0-20260706201446-f0a921348800 // indirect
 	google.golang.org/genproto/googleapis/rpc v0.0.0-20260706201446-f0a921348800 // indirect
 	google.golang.org/grpc v1.82.0 // indirect
-	google.golang.org/protobuf v1.36.11 // indirect
 	gopkg.in/warnings.v0 v0.1.2 // indirect
 )
 
@@ -68,7 +66,10 @@ replace github.com/thought-machine/please => /repo
 
 require (
 	github.com/anishathalye/porcupine v1.3.0
+	github.com/bazelbuild/remote-apis v0.0.0-20260331222004-becdd8f9ff81
+	github.com/bazelbuild/remote-apis-sdks v0.0.0-20260610142741-7ffd493e6686
 	github.com/cespare/xxhash/v2 v2.3.0
 	github.com/pkg/xattr v0.4.12
 	github.com/zeebo/blake3 v0.2.4
+	google.golang.org/protobuf v1.36.11
 )
